@@ -20,12 +20,13 @@ Record shape_good (sh : shape) : Prop := {
   sg_capd : 0 < sh_cap_down sh; sg_capu : 0 < sh_cap_up sh;
   sg_de_d : sh_de_d sh = false; sg_de_u : sh_de_u sh = true; sg_dx_d : sh_dx_d sh = true; sg_dx_u : sh_dx_u sh = true;
   sg_ue_d : sh_ue_d sh = true; sg_ue_u : sh_ue_u sh = false; sg_ux_d : sh_ux_d sh = true; sg_ux_u : sh_ux_u sh = true;
-  sg_refused : sh_refused_closed sh = true; sg_lup : sh_lst_closes_up sh = true; sg_lconn : sh_lst_closes_conn sh = true
+  sg_refused : sh_refused_closed sh = true; sg_lup : sh_lst_closes_up sh = true; sg_lconn : sh_lst_closes_conn sh = true;
+  sg_dconn : sh_dir_closes_conn sh = true; sg_dup : sh_dir_closes_up sh = true
 }.
 
 Lemma shape_ok_good sh : shape_ok sh = true -> shape_good sh.
 Proof.
-  unfold shape_ok. intros H.
+  unfold shape_ok, shape_ok_server. intros H.
   repeat (apply andb_prop in H; destruct H as [H ?]).
   repeat match goal with
          | H : negb _ = true |- _ => apply negb_true_iff in H
@@ -1129,8 +1130,8 @@ Record linv (l : lconn) : Prop := {
   li_ret : forall e, p_pc (l_p l) = PRet e -> l_ret_closed l /\ e_ex (l_upc l) = true;
   li_evd : eof_evid Down (l_p l) -> e_eof (l_app l) = true;
   li_evu : eof_evid Up (l_p l) -> e_eof (l_upc l) = true;
-  li_done : l_pc l = LDone -> if l_direct l then exists e, p_pc (l_p l) = PRet e
-                              else e_closed (l_app l) = true /\ (e_ex (l_upc l) = false \/ e_closed (l_upc l) = true);
+  li_done : l_pc l = LDone -> e_closed (l_app l) = true /\ (e_ex (l_upc l) = false \/ e_closed (l_upc l) = true);
+  li_dclose : l_pc l = LDClose -> l_direct l = true /\ e_ex (l_upc l) = true /\ exists e, p_pc (l_p l) = PRet e;
   li_close : forall h, l_pc l = LClose h -> l_direct l = false /\
                (if h then e_ex (l_upc l) = true else l_p l = p_idle /\ (e_ex (l_upc l) = false \/ e_closed (l_upc l) = true));
   li_data : e_data (l_upc l) = true -> l_direct l = true \/ l_answer l = Some true;
@@ -1138,7 +1139,7 @@ Record linv (l : lconn) : Prop := {
   li_wait : l_pc l = LWait -> e_ex (l_upc l) = true
 }.
 
-Ltac linv_fields I := destruct I as [Ip Iapp Ipre Ipipe Ipost Iret Ievd Ievu Idone Iclose Idata Iearly Iwait].
+Ltac linv_fields I := destruct I as [Ip Iapp Ipre Ipipe Ipost Iret Ievd Ievu Idone Idclose Iclose Idata Iearly Iwait].
 
 Lemma linv_new f : linv (l_new f).
 Proof.
@@ -1151,14 +1152,14 @@ Proof.
   intros I. linv_fields I. constructor; simpl in *; try assumption.
   - intros e He. destruct (Iret e He) as [R X]. split; [|exact X]. unfold l_ret_closed in *. simpl. rewrite Iapp.
     destruct (p_got (l_p l)) as [[[|] [|]]|]; tauto.
-  - intros X. specialize (Idone X). destruct (l_direct l); [exact Idone|]. rewrite Iapp. tauto.
+  - intros X. specialize (Idone X). rewrite Iapp. tauto.
 Qed.
 Lemma close_upc_linv l : linv l -> linv (lset_upc l (e_close (l_upc l))).
 Proof.
   intros I. linv_fields I. constructor; simpl in *; try assumption.
   - intros e He. destruct (Iret e He) as [R X]. split; [|exact X]. unfold l_ret_closed in *. simpl. rewrite X.
     destruct (p_got (l_p l)) as [[[|] [|]]|]; tauto.
-  - intros X. specialize (Idone X). destruct (l_direct l); [exact Idone|]. destruct Idone as [A [B|B]]; split; auto. destruct (e_ex (l_upc l)); auto.
+  - intros X. destruct (Idone X) as [A [B|B]]; split; auto. destruct (e_ex (l_upc l)); auto.
   - intros h X. destruct (Iclose h X) as [A B]. split; [exact A|]. destruct h; [exact B|]. destruct B as [B1 [B2|B2]]; split; auto. destruct (e_ex (l_upc l)); auto.
 Qed.
 Lemma lclose_linv l x : linv l -> linv (lclose l x).
@@ -1176,7 +1177,7 @@ Proof.
   - intros d Hd. destruct (Ipipe d Hd) as [_ [A B]]. repeat split; auto. apply (H4 d Hd).
   - intros P. right. auto.
   - intros e He. split; auto. apply (H6 e He).
-  - intros X. specialize (Idone X). destruct (l_direct l); [apply H5; rewrite X; reflexivity|exact Idone].
+  - intros X. destruct (Idclose X) as [A [B _]]. repeat split; auto. apply H5. rewrite X. reflexivity.
   - intros h X. destruct (Iclose h X) as [A B]. split; [exact A|]. destruct h; [exact B|congruence].
 Qed.
 
@@ -1290,6 +1291,16 @@ Proof.
     linv_fields I2. rewrite E2 in *. constructor; simpl in *; rewrite ?D2; try assumption; try discriminate; try (intros; discriminate); auto.
     + intros X. destruct (Idata X) as [Y|Y]; [congruence|auto].
     + intros [X|X]; discriminate.
+  - (* LDClose *)
+    inv H. rewrite (sg_dconn sh G), (sg_dup sh G).
+    destruct (li_dclose l I Epc) as [Dd [Hx _]].
+    pose proof (lclose_linv l (true, true) I) as I2.
+    assert (E2 : l_pc (lclose l (true, true)) = LDClose) by exact Epc.
+    assert (A2 : e_closed (l_app (lclose l (true, true))) = true) by (simpl; apply (li_app l I)).
+    assert (U2 : e_closed (l_upc (lclose l (true, true))) = true) by (simpl; exact Hx).
+    revert I2 E2 A2 U2. generalize (lclose l (true, true)). intros l2 I2 E2 A2 U2.
+    linv_fields I2. rewrite E2 in *. constructor; simpl in *; try assumption; try discriminate; try (intros; discriminate); auto.
+    intros [X|X]; discriminate.
   - (* LDone *) discriminate.
 Qed.
 
@@ -1305,6 +1316,7 @@ Proof.
   - exfalso. apply Ni. apply (li_pre l I). rewrite Epc. reflexivity.
   - repeat split; try discriminate. apply (li_pipe l I direct Epc).
   - destruct (li_close l I up_held Epc) as [_ X]. destruct up_held; [repeat split; try discriminate; exact X|destruct X as [X _]; congruence].
+  - repeat split; try discriminate. apply (li_dclose l I Epc).
   - repeat split; try discriminate. destruct (li_post l I) as [X|X]; [rewrite Epc; reflexivity|congruence|auto].
 Qed.
 
@@ -1388,10 +1400,8 @@ Lemma l_copy_none sh sd l : l_copy sh sd l = None ->
 Proof. unfold l_copy. destruct sd; [destruct (copier_step sh Down _ _ _) as [[? ?]|]|destruct (copier_step sh Up _ _ _) as [[? ?]|]]; congruence. Qed.
 
 (* RECLAMATION on the client: when a local connection is over, nothing it asked for is still in flight, and its goroutines have taken their
-   remaining steps, then - through the tunnel - both ends are closed and no goroutine is left; piped directly to a forward address, no goroutine
-   is left and an end stays open only if it is the one whose peer hung up first *)
-Theorem client_reclaimed sh l : shape_good sh -> linv l -> l_ended l = true -> l_settled l = true -> l_quiet sh l = true ->
-  (if l_direct l then l_released_direct l else l_released l) = true.
+   remaining steps, then - through the tunnel and piped directly to a forward address alike - both ends are closed and no goroutine is left *)
+Theorem client_reclaimed sh l : shape_good sh -> linv l -> l_ended l = true -> l_settled l = true -> l_quiet sh l = true -> l_released l = true.
 Proof.
   intros G I En St Q. unfold l_quiet in Q. repeat (apply andb_prop in Q; destruct Q as [Q ?]).
   repeat match goal with H : is_none _ = true |- _ => apply is_none_true in H end.
@@ -1421,44 +1431,80 @@ Proof.
       destruct (e_err (l_upc l)); try discriminate. destruct (e_eof (l_upc l)); discriminate.
     + unfold sel_step in Q1. rewrite Ep in Q1. discriminate.
   - discriminate.
+  - discriminate.
   - (* LDone *)
-    pose proof (li_done l I Epc) as Dn. pose proof (li_p l I) as [Hpc [Sd Su]].
-    assert (Gd : forall r, p_got (l_p l) = Some (Down, r) -> p_cd (l_p l) = CDone).
-    { intros r Eg. unfold side_inv, not_got in Sd. simpl in Sd. destruct (p_cd (l_p l)) eqn:Ec; try reflexivity;
-        try (exfalso; apply (proj2 Sd r); exact Eg).
-      destruct (li_post l I) as [X|[e X]]; [rewrite Epc; reflexivity|rewrite X in Eg; discriminate|].
-      unfold pc_inv in Hpc. rewrite X in Hpc. destruct Hpc as [_ [Y _]]. congruence. }
-    assert (Gu : forall r, p_got (l_p l) = Some (Up, r) -> p_cu (l_p l) = CDone).
-    { intros r Eg. unfold side_inv, not_got in Su. simpl in Su. destruct (p_cu (l_p l)) eqn:Ec; try reflexivity;
-        try (exfalso; apply (proj2 Su r); exact Eg).
-      destruct (li_post l I) as [X|[e X]]; [rewrite Epc; reflexivity|rewrite X in Eg; discriminate|].
-      unfold pc_inv in Hpc. rewrite X in Hpc. destruct Hpc as [_ [_ Y]]. congruence. }
-    assert (Ld : e_closed (l_app l) = true -> cop_live (p_cd (l_p l)) = false).
-    { intros C. destruct (cop_live (p_cd (l_p l))) eqn:L; [|reflexivity]. exfalso.
-      destruct (copier_blocked sh Down _ _ _ G (li_p l I) Q3 L) as [_ B]. unfold e_rd in B. rewrite C in B. discriminate. }
-    assert (Lu : e_closed (l_upc l) = true -> cop_live (p_cu (l_p l)) = false).
-    { intros C. destruct (cop_live (p_cu (l_p l))) eqn:L; [|reflexivity]. exfalso.
-      destruct (copier_blocked sh Up _ _ _ G (li_p l I) Q4 L) as [_ B]. unfold e_rd in B. rewrite C in B. discriminate. }
-    destruct (l_direct l) eqn:Ed.
-    + destruct Dn as [e He]. destruct (li_ret l I e He) as [R Hx]. unfold l_ret_closed in R.
-      unfold l_released_direct. rewrite Epc. simpl.
-      destruct (p_got (l_p l)) as [[[|] [|]]|] eqn:Eg; try tauto.
-      * rewrite (Gd _ eq_refl), (Lu R), R. simpl. rewrite (li_evd l I); [rewrite orb_true_r; reflexivity|right; right; exact Eg].
-      * destruct R as [R1 R2]. rewrite (Gd _ eq_refl), (Lu R1), R1, R2. reflexivity.
-      * rewrite (Gu _ eq_refl), (Ld R), R. simpl. rewrite (li_evu l I); [rewrite orb_true_r; reflexivity|right; right; exact Eg].
-      * destruct R as [R1 R2]. rewrite (Gu _ eq_refl), (Ld R2), R1, R2. reflexivity.
-    + destruct Dn as [A B]. unfold l_released. rewrite Epc, A, (Ld A). simpl.
-      destruct B as [B|B].
-      * rewrite B. simpl. rewrite andb_true_r.
-        destruct (li_post l I) as [X|[e X]]; [rewrite Epc; reflexivity|rewrite X; reflexivity|].
-        destruct (li_ret l I e X) as [_ Y]. congruence.
-      * rewrite B, (Lu B). simpl. rewrite orb_true_r. reflexivity.
+    destruct (li_done l I Epc) as [A B].
+    assert (Ld : cop_live (p_cd (l_p l)) = false).
+    { destruct (cop_live (p_cd (l_p l))) eqn:L; [|reflexivity]. exfalso.
+      destruct (copier_blocked sh Down _ _ _ G (li_p l I) Q3 L) as [_ X]. unfold e_rd in X. rewrite A in X. discriminate. }
+    unfold l_released. rewrite Epc, A, Ld. simpl.
+    destruct B as [B|B].
+    + rewrite B. simpl. rewrite andb_true_r.
+      destruct (li_post l I) as [X|[e X]]; [rewrite Epc; reflexivity|rewrite X; reflexivity|].
+      destruct (li_ret l I e X) as [_ Y]. congruence.
+    + assert (Lu : cop_live (p_cu (l_p l)) = false).
+      { destruct (cop_live (p_cu (l_p l))) eqn:L; [|reflexivity]. exfalso.
+        destruct (copier_blocked sh Up _ _ _ G (li_p l I) Q4 L) as [_ X]. unfold e_rd in X. rewrite B in X. discriminate. }
+      rewrite B, Lu. simpl. rewrite orb_true_r. reflexivity.
 Qed.
 
 Theorem client_run_reclaimed sh f evs : shape_good sh ->
   let l := lrun sh (l_new f) evs in
-  l_ended l = true -> l_settled l = true -> l_quiet sh l = true -> (if l_direct l then l_released_direct l else l_released l) = true.
+  l_ended l = true -> l_settled l = true -> l_quiet sh l = true -> l_released l = true.
 Proof. intros G l. apply client_reclaimed; auto. apply lrun_linv; auto. apply linv_new. Qed.
+
+(* once HandleConnection has returned and both copy loops are gone, nothing in the model ever closes anything again: an end that is open
+   then stays open (in reality: until the collector finds it) *)
+Lemma l_over_stays sh l e : l_pc l = LDone -> cop_live (p_cd (l_p l)) = false -> cop_live (p_cu (l_p l)) = false ->
+  let l' := lstep sh l e in
+  l_pc l' = LDone /\ cop_live (p_cd (l_p l')) = false /\ cop_live (p_cu (l_p l')) = false /\
+  e_closed (l_app l') = e_closed (l_app l) /\ e_closed (l_upc l') = e_closed (l_upc l).
+Proof.
+  intros Epc L1 L2. unfold lstep. destruct (lstep_opt sh l e) as [l'|] eqn:H; [|auto].
+  destruct e; simpl in H;
+    try match type of H with (if ?b then _ else _) = _ => revert H; destruct b; intros H; try discriminate end;
+    try (inv H; simpl; auto; fail).
+  - unfold l_hand in H. rewrite Epc in H. discriminate.
+  - exfalso. unfold l_copy in H. destruct sd.
+    + destruct (copier_step sh Down (e_rd (l_app l)) (e_wr_ok (l_upc l)) (l_p l)) as [[p' x]|] eqn:Hs; try discriminate.
+      pose proof (copier_step_live _ _ _ _ _ _ _ Hs) as L. simpl in L. congruence.
+    + destruct (copier_step sh Up (e_rd (l_upc l)) (e_wr_ok (l_app l)) (l_p l)) as [[p' x]|] eqn:Hs; try discriminate.
+      pose proof (copier_step_live _ _ _ _ _ _ _ Hs) as L. simpl in L. congruence.
+Qed.
+Lemma l_over_for_ever sh evs : forall l, l_pc l = LDone -> cop_live (p_cd (l_p l)) = false -> cop_live (p_cu (l_p l)) = false ->
+  e_closed (l_app (lrun sh l evs)) = e_closed (l_app l) /\ e_closed (l_upc (lrun sh l evs)) = e_closed (l_upc l).
+Proof.
+  induction evs as [|e r IH]; simpl; intros l A B C; auto.
+  destruct (l_over_stays sh l e A B C) as [A' [B' [C' [D E]]]]. destruct (IH _ A' B' C') as [F G]. rewrite F, G. auto.
+Qed.
+
+(* 9. ConnectDirectly closes nothing after its pipe (the code before the repair): PipeData closes the side opposite to the one that ended,
+      so the end whose own peer hung up first is never closed - the local connection when the application closes first, the connection to
+      the forward address when the target does - whatever happens afterwards *)
+Definition app_closes_direct : list lev := [LFwdFate true; LHand false; LHand false; LAppClose; LCopy Down; LCopy Down; LHand false; LHand false; LHand false; LHand false; LCopy Up; LCopy Up].
+Definition target_closes_direct : list lev := [LFwdFate true; LHand false; LHand false; LUpEof; LCopy Up; LCopy Up; LHand false; LHand false; LHand false; LHand false; LCopy Down; LCopy Down].
+Theorem direct_left_open_refuted :
+  let sh := variant DDirectOpen in
+  let a := lrun sh (l_new true) app_closes_direct in
+  let t := lrun sh (l_new true) target_closes_direct in
+  l_quiet sh a = true /\ l_ended a = true /\ l_settled a = true /\ l_goroutines a = 0 /\ l_released a = false /\
+  (forall evs, e_closed (l_app (lrun sh a evs)) = false) /\
+  l_quiet sh t = true /\ l_ended t = true /\ l_settled t = true /\ l_goroutines t = 0 /\ l_released t = false /\
+  (forall evs, e_closed (l_upc (lrun sh t evs)) = false) /\
+  l_released (lrun intended (l_new true) app_closes_direct) = true /\ l_released (lrun intended (l_new true) target_closes_direct) = true.
+Proof.
+  cbv zeta. repeat split; try (vm_compute; reflexivity).
+  - intros evs.
+    assert (X : l_pc (lrun (variant DDirectOpen) (l_new true) app_closes_direct) = LDone /\
+                cop_live (p_cd (l_p (lrun (variant DDirectOpen) (l_new true) app_closes_direct))) = false /\
+                cop_live (p_cu (l_p (lrun (variant DDirectOpen) (l_new true) app_closes_direct))) = false) by (vm_compute; auto).
+    destruct X as [A [B C]]. rewrite (proj1 (l_over_for_ever (variant DDirectOpen) evs _ A B C)). vm_compute. reflexivity.
+  - intros evs.
+    assert (X : l_pc (lrun (variant DDirectOpen) (l_new true) target_closes_direct) = LDone /\
+                cop_live (p_cd (l_p (lrun (variant DDirectOpen) (l_new true) target_closes_direct))) = false /\
+                cop_live (p_cu (l_p (lrun (variant DDirectOpen) (l_new true) target_closes_direct))) = false) by (vm_compute; auto).
+    destruct X as [A [B C]]. rewrite (proj2 (l_over_for_ever (variant DDirectOpen) evs _ A B C)). vm_compute. reflexivity.
+Qed.
 
 (* 2. the client does not close a stream whose channel was refused: its end of the stream stays open for ever (and on the server the handler
       goroutine of that stream waits for another proposal for as long as the session lives) *)
@@ -1479,62 +1525,89 @@ Proof.
   intros evs H. apply quiet_stuck; auto.
 Qed.
 
-(* 4. PipeData closes the side that has just ended instead of the other one: piped directly to a forward address, the local application is
-      never told that its target hung up, and the copy loop reading from it stays *)
-Definition target_hangs_up_direct : list lev := [LFwdFate true; LHand false; LHand false; LUpEof; LCopy Up; LCopy Up; LHand false; LHand false; LHand false; LCopy Down; LCopy Down].
+(* 4. PipeData closes the side that has just ended instead of the other one. Wherever the caller closes both ends itself afterwards (the server's
+      handler, HandleConnection through the tunnel, ConnectDirectly since its repair) this is made good; where nothing is closed after the pipe
+      (ConnectDirectly before its repair) the local application is never told that its target hung up, and the copy loop reading from it stays -
+      while the right close mapping, equally without closes after the pipe, ends the local connection and both copy loops *)
+Definition target_hangs_up_direct : list lev := target_closes_direct.
 Theorem wrong_side_refuted :
   let l := lrun (variant DWrongSide) (l_new true) target_hangs_up_direct in
   l_quiet (variant DWrongSide) l = true /\ l_ended l = true /\ l_settled l = true /\ l_pc l = LDone /\ l_direct l = true /\
-  e_closed (l_app l) = false /\ e_eof (l_app l) = false /\ p_cd (l_p l) = CRun /\ l_goroutines l = 1 /\ l_released_direct l = false /\
-  let g := lrun intended (l_new true) target_hangs_up_direct in
-  l_quiet intended g = true /\ e_closed (l_app g) = true /\ l_goroutines g = 0 /\ l_released_direct g = true.
+  e_closed (l_app l) = false /\ e_eof (l_app l) = false /\ p_cd (l_p l) = CRun /\ l_goroutines l = 1 /\ l_released l = false /\
+  let g := lrun (variant DDirectOpen) (l_new true) target_hangs_up_direct in
+  l_quiet (variant DDirectOpen) g = true /\ e_closed (l_app g) = true /\ l_goroutines g = 0 /\ l_released_direct g = true.
 Proof. vm_compute. repeat split. Qed.
+(* the server's machine does not look at the client's switches: a shape that passes for the server is, as far as the server's steps go, the
+   same shape with the client's switches in order *)
+Definition client_fixed (sh : shape) : shape :=
+  {| sh_err_closes_own := sh_err_closes_own sh; sh_defer_closes_own := sh_defer_closes_own sh; sh_acc_quiet_returns := sh_acc_quiet_returns sh;
+     sh_acc_err_returns := sh_acc_err_returns sh; sh_acc_err_closes_sess := sh_acc_err_closes_sess sh; sh_slots := sh_slots sh;
+     sh_slot_release_err := sh_slot_release_err sh; sh_dial_lock := sh_dial_lock sh; sh_mh_closes_up := sh_mh_closes_up sh;
+     sh_cap_down := sh_cap_down sh; sh_cap_up := sh_cap_up sh;
+     sh_de_d := sh_de_d sh; sh_de_u := sh_de_u sh; sh_dx_d := sh_dx_d sh; sh_dx_u := sh_dx_u sh;
+     sh_ue_d := sh_ue_d sh; sh_ue_u := sh_ue_u sh; sh_ux_d := sh_ux_d sh; sh_ux_u := sh_ux_u sh;
+     sh_refused_closed := true; sh_lst_closes_up := true; sh_lst_closes_conn := true; sh_dir_closes_conn := true; sh_dir_closes_up := true |}.
+Lemma client_fixed_ok sh : shape_ok_server sh = true -> shape_ok (client_fixed sh) = true.
+Proof. intros K. unfold shape_ok. change (shape_ok_server (client_fixed sh)) with (shape_ok_server sh). rewrite K. reflexivity. Qed.
 
 (* ================================================================================================================================
-   The statements as the property files quote them: over every event list, for every shape that passes shape_ok *)
-Theorem frame_run sh evs e i : shape_ok sh = true -> ev_conn e = Some i ->
+   The statements as the property files quote them: over every event list, for every shape that passes shape_ok_server (the server's
+   machine) resp. shape_ok (the client's) *)
+Theorem frame_run sh evs e i : shape_ok_server sh = true -> ev_conn e = Some i ->
   let s := run sh evs in
   (forall j, j <> i -> nth_error (g_conns (step sh s e)) j = nth_error (g_conns s) j) /\ same_globals s (step sh s e) /\
   exists rs, Forall (own_res i) rs /\ g_log (step sh s e) = g_log s ++ map (fun r => (AHand i, r)) rs.
-Proof. intros K Ev s. apply frame_step; auto using shape_ok_good. apply run_sinv, shape_ok_good, K. Qed.
+Proof.
+  intros K Ev. pose proof (shape_ok_good _ (client_fixed_ok sh K)) as G. destruct sh.
+  exact (frame_step _ _ e i G (run_sinv _ evs G) Ev).
+Qed.
 
-Theorem closes_are_own_run sh evs : shape_ok sh = true -> forall x, In x (g_log (run sh evs)) -> fst x = owner (snd x).
-Proof. intros K. apply closes_are_own, shape_ok_good, K. Qed.
+Theorem closes_are_own_run sh evs : shape_ok_server sh = true -> forall x, In x (g_log (run sh evs)) -> fst x = owner (snd x).
+Proof. intros K. pose proof (shape_ok_good _ (client_fixed_ok sh K)) as G. destruct sh. exact (closes_are_own _ evs G). Qed.
 
-Theorem independent_run sh evs evs' e j : shape_ok sh = true -> ev_conn e = Some j ->
+Theorem independent_run sh evs evs' e j : shape_ok_server sh = true -> ev_conn e = Some j ->
   let s := run sh evs in let s' := run sh evs' in
   view s j = view s' j -> view (step sh s e) j = view (step sh s' e) j /\ enabled sh s e = enabled sh s' e.
-Proof. intros K Ev s s'. apply independent; auto using shape_ok_good; apply run_sinv, shape_ok_good, K. Qed.
+Proof.
+  intros K Ev. pose proof (shape_ok_good _ (client_fixed_ok sh K)) as G. destruct sh.
+  exact (independent _ _ _ e j G (run_sinv _ evs G) (run_sinv _ evs' G) Ev).
+Qed.
 
-Theorem accept_serves_run sh evs b j : shape_ok sh = true ->
+Theorem accept_serves_run sh evs b j : shape_ok_server sh = true ->
   let s := run sh evs in
   g_acc s = AAccept -> g_dead s = Alive -> g_closed s = false -> first_pending (g_conns s) 0 = Some j ->
   exists c, nth_error (g_conns s) j = Some c /\ nth_error (g_conns (step sh s (SAccept b))) j = Some (set_h c HPeek) /\
             g_acc (step sh s (SAccept b)) = AAccept /\
             forall k, k <> j -> nth_error (g_conns (step sh s (SAccept b))) k = nth_error (g_conns s) k.
-Proof. intros K s. apply accept_serves, shape_ok_good, K. Qed.
+Proof. intros K. pose proof (shape_ok_good _ (client_fixed_ok sh K)) as G. destruct sh. exact (accept_serves _ _ b j G). Qed.
 
-Theorem conn_reclaimed_run sh evs i c : shape_ok sh = true ->
+Theorem conn_reclaimed_run sh evs i c : shape_ok_server sh = true ->
   let s := run sh evs in
   nth_error (g_conns s) i = Some c -> k_h c <> HNone -> ended s c = true -> dial_settled c = true -> conn_quiet sh s i = true ->
   released sh c = true.
-Proof. intros K s. apply conn_reclaimed; auto using shape_ok_good. apply run_sinv, shape_ok_good, K. Qed.
+Proof.
+  intros K. pose proof (shape_ok_good _ (client_fixed_ok sh K)) as G. destruct sh.
+  exact (conn_reclaimed _ _ i c G (run_sinv _ evs G)).
+Qed.
 
-Theorem session_reclaimed_run sh evs : shape_ok sh = true ->
+Theorem session_reclaimed_run sh evs : shape_ok_server sh = true ->
   let s := run sh evs in
   g_dead s <> Alive -> quiet sh s = true -> forallb dial_settled (g_conns s) = true ->
   g_acc s = AExited /\ (forall i c, nth_error (g_conns s) i = Some c -> k_h c <> HNone -> released sh c = true) /\ footprint s = 0.
-Proof. intros K s. apply session_reclaimed; auto using shape_ok_good. apply run_sinv, shape_ok_good, K. Qed.
+Proof.
+  intros K. pose proof (shape_ok_good _ (client_fixed_ok sh K)) as G. destruct sh.
+  exact (session_reclaimed _ _ G (run_sinv _ evs G)).
+Qed.
 
-Theorem accept_exits_run sh evs : shape_ok sh = true ->
+Theorem accept_exits_run sh evs : shape_ok_server sh = true ->
   let s := run sh evs in
   g_acc s = AAccept -> g_dead s <> Alive \/ g_closed s = true ->
   g_acc (step sh s (SAccept true)) = AExited /\ (first_pending (g_conns s) 0 = None -> g_acc (step sh s (SAccept false)) = AExited).
-Proof. intros K s. apply accept_exits, shape_ok_good, K. Qed.
+Proof. intros K. pose proof (shape_ok_good _ (client_fixed_ok sh K)) as G. destruct sh. exact (accept_exits _ _ G). Qed.
 
 Theorem client_reclaimed_run sh f evs : shape_ok sh = true ->
   let l := lrun sh (l_new f) evs in
-  l_ended l = true -> l_settled l = true -> l_quiet sh l = true -> (if l_direct l then l_released_direct l else l_released l) = true.
+  l_ended l = true -> l_settled l = true -> l_quiet sh l = true -> l_released l = true.
 Proof. intros K. apply client_run_reclaimed, shape_ok_good, K. Qed.
 
 (* a target connection is left to the garbage collector only when muxHandler does not close it and the target hung up first *)
